@@ -25,9 +25,12 @@ def main(argv):
     seed = int(os.environ.get("VERIF_SEED", "0"))
     sys.setrecursionlimit(20000)
     mod = importlib.import_module(prop.lower())
-    ctx = core.Ctx(prop, tier, seed)
+    tag = getattr(mod, "TAG", "")
+    ctx = core.Ctx(prop, tier, seed, tag)
     try:
-        b = core.build(mod.COQ_FILES, need_driver=getattr(mod, "NEED_DRIVER", True))
+        b = core.build(mod.COQ_FILES, need_driver=getattr(mod, "NEED_DRIVER", True),
+                       extract=getattr(mod, "EXTRACT", "FA/Extract/Extract.v"),
+                       driver_src=getattr(mod, "DRIVER", "driver.ml"), tag=tag)
         ctx.build = b
         if b.gate:
             print("ERROR forbidden vernacular in the development: %s" % "; ".join(b.gate[:5]))
